@@ -465,6 +465,7 @@ func loadsCmd(args []string) error {
 	seed := fs.Int64("seed", 1, "")
 	repo := fs.String("repo", "/repo", "")
 	which := fs.String("props", "c07,c08,c18,c19", "")
+	usagePath := fs.String("usage", "", "usage combinations printed by TLC (spec/Usage.tla): the whole product is run for C07")
 	fs.Parse(args)
 	rng := rand.New(rand.NewSource(*seed))
 	items, err := buildCorpus(strings.Split(*casesArg, ","), *repo, *tier, rng)
@@ -530,6 +531,82 @@ func loadsCmd(args []string) error {
 				"pulled": o.Pulled, "replay_len": o.ReplayLen, "prefix": o.Prefix, "final": o.FinalErr,
 			})
 		})
+		// the whole product of spec/Usage.tla (presentation x delivery x fault x drain) on a few
+		// files of every kind, at the cuts 0, middle and none
+		if *usagePath != "" {
+			raw, err := os.ReadFile(*usagePath)
+			if err != nil {
+				return err
+			}
+			type usage struct{ P, D, F, Dr string }
+			var us []usage
+			for _, l := range strings.Split(strings.TrimSpace(string(raw)), "\n") {
+				var u struct {
+					P  string `json:"p"`
+					D  string `json:"d"`
+					F  string `json:"f"`
+					Dr string `json:"dr"`
+				}
+				if err := json.Unmarshal([]byte(l), &u); err != nil {
+					return err
+				}
+				us = append(us, usage{u.P, u.D, u.F, u.Dr})
+			}
+			perFmt := map[string]int{}
+			var pick []item
+			for _, it := range items {
+				if it.Tail == 0 && len(it.Data) > 40 && len(it.Data) < 20000 && perFmt[it.Fmt] < 2 {
+					perFmt[it.Fmt]++
+					pick = append(pick, it)
+				}
+			}
+			type ujob struct {
+				it     item
+				cut    int
+				loader string
+				u      usage
+			}
+			var ujobs []ujob
+			for _, it := range pick {
+				loaders := []string{it.Fmt, "auto"}
+				if it.Fmt == "junk" {
+					loaders = []string{"png", "auto"}
+				}
+				for _, cut := range []int{0, len(it.Data) / 2, len(it.Data)} {
+					for _, l := range loaders {
+						for _, u := range us {
+							ujobs = append(ujobs, ujob{it, cut, l, u})
+						}
+					}
+				}
+			}
+			parallel(len(ujobs), func(i int) {
+				j := ujobs[i]
+				var k int
+				fmt.Sscanf(j.u.D, "fixed%d", &k)
+				sc := obs.Sched{Name: j.u.D, WithErr: strings.HasSuffix(j.u.F, "-with-data")}
+				if k > 0 {
+					sc.Sizes, sc.Cyclic = []int{k}, true
+				}
+				fault := strings.TrimSuffix(j.u.F, "-with-data")
+				src := obs.NewSource(j.it.Data, j.cut, failOf(fault), sc).WithShape(j.u.P)
+				switch {
+				case j.u.Dr == "copy":
+					src.DrainCopyAfter = 0
+				case strings.HasSuffix(j.u.Dr, "-then-copy"):
+					fmt.Sscanf(j.u.Dr, "read%d-then-copy", &src.DrainCopyAfter)
+				default:
+					fmt.Sscanf(j.u.Dr, "read%d", &src.DrainBuf)
+				}
+				o := obs.Run(j.loader, src, true, false)
+				sink.put(map[string]interface{}{
+					"item": j.it.Name, "loader": j.loader, "n": len(j.it.Data), "cut": j.cut, "fault": fault,
+					"sched": sc.Name, "shape": j.u.P, "drain": j.u.Dr, "with_data": sc.WithErr, "usage": true,
+					"ok": o.OK, "panic": o.Panic != "", "stream_nil": o.StreamNil,
+					"pulled": o.Pulled, "replay_len": o.ReplayLen, "prefix": o.Prefix, "final": o.FinalErr,
+				})
+			})
+		}
 		done()
 		stats["c07"] = sink.n
 	}
